@@ -183,6 +183,9 @@ PROPS["C06"] = {
         c06_keys("x/cert/keeper", "keys_cert.go", ["Harness_C06_cert_keys"]),
         c06_keys("x/market/types", "ids.go", ["Harness_C06_escrow_ids"]),
         ID_EQ_JOB,
+        {"pkg": "x/cert/keeper", "files": ["harness/C17/certs.go", "harness/C17/query.go"], "shims": ["shim.go.tmpl", "shim_chain.go.tmpl", "shim_cert.go.tmpl"],
+         "quick": ["Harness_C17_revoke_padded", "Harness_C17_revoke_2"], "thorough": ["Harness_C17_revoke_padded", "Harness_C17_revoke_2"], "opts": {"timeout": 20000, "maxbigbytes": 9},
+         "reach": {"Harness_C17_revoke_padded": ["revoked"]}},
         chain_job("C06"), esc_job("C06"),
     ],
     "bounds": {"quick": "signers: all 19 message types with arbitrary 20-byte addresses and sequence numbers; key separation: arbitrary 20-byte owner/provider/auditor addresses, arbitrary uint64/uint32 sequence numbers (bit-vectors through the real encoding/binary code), escrow ids with decimal renderings of 1..3 digits (thorough 1..5), certificate serials < 2^24; frame and only-the-signer-pays clauses on the chain step (12 handlers) and escrow step",
